@@ -363,6 +363,7 @@ def inspectors(ctx, model, exe, problems):
                 items.append(m.groups())
     mod = model.run(["I " + ("" if it[2] == "-" else it[2]) for it in items], timeout=1200)
     st = dict(valid_multiframe=0, truncated=0, damaged=0, inplace_ok=0, agree=0, unknown_size_frames=0, skippable_first=0)
+    decode_fail = {}
     for it, mo in zip(items, mod):
         tag, ident, hexs, real_i, facts = it
         cls = {"F": "valid", "T": "truncated", "D": "damaged", "X": "expanding"}[tag]
@@ -409,8 +410,12 @@ def inspectors(ctx, model, exe, problems):
                 else:
                     fail.append("in-place decoding with ZSTD_decompressionMargin failed: " + ip)
             for w in fail:
-                ctx.violation(dict(kind="inspector-vs-decode", id=ident, what=w, real=real_i, facts=facts, hex=hexs[:20000]),
-                              what="frame inspector contradicts the actual decode: " + w)
+                cls_key = re.sub(r"[0-9a-fA-F]{2,}|\d+", "#", w)
+                if cls_key in decode_fail:
+                    decode_fail[cls_key]["count"] += 1
+                else:
+                    decode_fail[cls_key] = dict(kind="inspector-vs-decode", id=ident, what=w, real=real_i, facts=facts,
+                                                hex=hexs[:20000], count=1)
             if tag == "X" and ip != "OK":
                 # hand-made valid frame whose compressed blocks are larger than what they regenerate
                 ctx.violation(dict(kind="inplace-margin-expanding-blocks", id=ident, facts=facts, real=real_i, hex=hexs),
@@ -418,6 +423,8 @@ def inspectors(ctx, model, exe, problems):
                                    "(in-place ZSTD_decompress: %s)" % ip, key="C06-margin-expanding-blocks")
         if tag == "F":
             ctx.sample(dict(family="inspect", id=ident, inspectors=real_i, facts=(facts or "").strip(), bytes=len(hexs) // 2), maxn=8)
+    for v in decode_fail.values():
+        ctx.violation(v, what="frame inspector contradicts the actual decode (x%d): %s" % (v["count"], v["what"]))
     ctx.notes["inspectors"] = st
 
 
